@@ -12,6 +12,7 @@ import (
 	"strings"
 
 	"github.com/hyperjumptech/grule-rule-engine/ast"
+	"github.com/hyperjumptech/grule-rule-engine/engine"
 	"github.com/hyperjumptech/grule-rule-engine/pkg/simhook"
 
 	"grulesim/sim/core"
@@ -39,6 +40,9 @@ type Extra struct {
 	// Plan, when present, is the explicit interleaving: the task id chosen at each successive
 	// yield point. After the list: the current task runs on, then the lowest live id.
 	Plan []int `json:"plan,omitempty"`
+	// SharedEngine: all tasks execute through ONE *GruleEngine value (no listeners, one MaxCycle).
+	SharedEngine   bool   `json:"shared_engine,omitempty"`
+	SharedMaxCycle uint64 `json:"shared_max_cycle,omitempty"`
 }
 
 func ExtraOf(sc *core.Scenario) (*Extra, error) {
@@ -273,6 +277,10 @@ func phase(sc *core.Scenario, ex *Extra, mode string, only int) *Outcome {
 			s.tasks[i], s.tasks[j] = s.tasks[j], s.tasks[i]
 		}
 	}
+	var sharedEngine *engine.GruleEngine
+	if ex.SharedEngine {
+		sharedEngine = &engine.GruleEngine{MaxCycle: ex.SharedMaxCycle}
+	}
 	var shared []core.Violation
 	report := func(oracle, msg string) {
 		for _, v := range shared {
@@ -385,6 +393,9 @@ func phase(sc *core.Scenario, ex *Extra, mode string, only int) *Outcome {
 				p := &core.Scenario{Property: "C09", Sim: "E", Program: sc.Program, Facts: st.Facts, Schedule: st.Schedule,
 					Removed: append(append([]string{}, ex.Removed...), t.removed[st.Slot]...),
 					Knobs:   core.Knobs{MaxCycle: st.MaxCycle, Listeners: 1, Mode: map[string]string{"exec": "execute", "fetch": "fetch"}[st.Op]}, LatSeed: uint64(t.id + 1)}
+				if sharedEngine != nil {
+					p.Knobs.Listeners, p.Knobs.MaxCycle = 0, ex.SharedMaxCycle
+				}
 				res := &esim.Result{Probes: map[string]int64{}, Faults: map[string]int{}, MethodCalls: map[string]int{}}
 				h := esim.Prepare(p, kb, res)
 				if h == nil {
@@ -392,6 +403,9 @@ func phase(sc *core.Scenario, ex *Extra, mode string, only int) *Outcome {
 					continue
 				}
 				h.SetYield(func(site string) { s.yield(t, site) })
+				if sharedEngine != nil {
+					h.SetEngine(sharedEngine)
+				}
 				t.h = h
 				h.Execute()
 				t.h = nil
